@@ -18,11 +18,33 @@ class Tok(object):
         return "<%s>" % self.n
 
 
+class TypeTok(object):
+    """a TDMS data type known by a symbolic code (two types are equal iff their codes are)"""
+
+    def __init__(self, code):
+        self.code = code
+
+    def __eq__(self, o):
+        if isinstance(o, TypeTok):
+            return self.code == o.code
+        return False
+
+    def __ne__(self, o):
+        from pyvc.sym import sym_not
+        return sym_not(self.__eq__(o))
+
+    def __hash__(self):
+        return id(self)
+
+    size = 4
+    nptype = None
+
+
 def mk_segobj(vc, path, tag):
     has = vc.bool(tag + "_has")
     nv = vc.int(tag + "_nv", lo=0)
     size = vc.int(tag + "_size", lo=0)
-    typ = Tok("type:" + tag)
+    typ = TypeTok(vc.int(tag + "_type", lo=0))
     o = vc.new("tdms_segment.TdmsSegmentObject", path=path, number_values=nv, data_size=size, has_data=has,
                data_type=typ)
     return o
@@ -46,7 +68,7 @@ def _setup(interp):
         nv = _lift(z3.Function("IDX_NV", z3.IntSort(), z3.IntSort())(sym.z3int(pos)))
         size = _lift(z3.Function("IDX_SIZE", z3.IntSort(), z3.IntSort())(sym.z3int(pos)))
         st.assume(And(nv >= 0, size >= 0))
-        typ = ("type-at", pos)
+        typ = TypeTok(_lift(z3.Function("IDX_TYPE", z3.IntSort(), z3.IntSort())(sym.z3int(pos))))
         interp.setattr_value(obj, "number_values", nv)
         interp.setattr_value(obj, "data_type", typ)
         interp.setattr_value(obj, "data_size", size)
@@ -83,8 +105,8 @@ def _setup(interp):
 
 
 def types_equal(a, b):
-    if isinstance(a, tuple) and isinstance(b, tuple) and a[0] == "type-at" and b[0] == "type-at":
-        return a[1] == b[1]
+    if isinstance(a, TypeTok) and isinstance(b, TypeTok):
+        return a.code == b.code
     return a is b
 
 
@@ -222,7 +244,7 @@ def _read_segment_objects(vc):
         if vc.interp.truth(is_full):
             idx = (_lift(z3.Function("IDX_NV", z3.IntSort(), z3.IntSort())(sym.z3int(after_header))),
                    _lift(z3.Function("IDX_SIZE", z3.IntSort(), z3.IntSort())(sym.z3int(after_header))),
-                   ("type-at", after_header))
+                   TypeTok(_lift(z3.Function("IDX_TYPE", z3.IntSort(), z3.IntSort())(sym.z3int(after_header)))))
             if ii < len(idx_reads):
                 (o_, ipos, ihdr, iord) = idx_reads[ii]
                 vc.ensure("entry[%d]/index-read-right-after-header" % k, ipos == after_header)
